@@ -2,6 +2,24 @@
 
 package main
 
+import (
+	"go/types"
+
+	"github.com/benoitkugler/gomacro/analysis"
+	ansql "github.com/benoitkugler/gomacro/analysis/sql"
+	"github.com/benoitkugler/gomacro/generator"
+)
+
 const hooksEnabled = false
 
 func hookCommonPrefix(paths []string) string { panic("hooks disabled") }
+
+func hookIsUniques(ct string) []string   { panic("hooks disabled") }
+func hookIsUnique(ct string) string      { panic("hooks disabled") }
+func hookIsSelectKey(ct string) []string { panic("hooks disabled") }
+func hookNewCustomQuery(cols map[string]types.Type, comment string) ansql.CustomQuery {
+	panic("hooks disabled")
+}
+func hookCustomConstraint(ana *analysis.Analysis, ta ansql.Table, rep generator.TableNameReplacer, content string) string {
+	panic("hooks disabled")
+}
